@@ -277,11 +277,11 @@ Proof.
     apply Rinv_le_contravar; lra.
 Qed.
 
-Lemma dur_seconds_near d : (0 <= d <= max_i64)%Z ->
+Lemma dur_seconds_near d : (0 <= d <= 9223372036854775808)%Z ->
   fin (dur_seconds d) = true /\ near 2 (IZR d / IZR E9) (Rv (dur_seconds d)) /\
   Rv (dur_seconds d) = rnd (IZR (d / E9) + rnd (IZR (d mod E9) / IZR E9)).
 Proof.
-  intros Hd. unfold max_i64 in Hd.
+  intros Hd.
   assert (Eq : Z.quot d 1000000000 = (d / E9)%Z) by (apply Z.quot_div_nonneg; unfold E9; lia).
   assert (Er : Z.rem d 1000000000 = (d mod E9)%Z) by (apply Z.rem_mod_nonneg; unfold E9; lia).
   unfold dur_seconds. rewrite Eq, Er. clear Eq Er.
@@ -319,7 +319,7 @@ Proof.
   rewrite Rs. apply near_rnd; [lia|apply div_E9_zero_or_big; lia|exact Ns].
 Qed.
 
-Lemma dur_seconds_mono d1 d2 : (0 <= d1 <= d2)%Z -> (d2 <= max_i64)%Z ->
+Lemma dur_seconds_mono d1 d2 : (0 <= d1 <= d2)%Z -> (d2 <= 9223372036854775808)%Z ->
   Rv (dur_seconds d1) <= Rv (dur_seconds d2).
 Proof.
   intros H1 H2.
@@ -351,13 +351,41 @@ Qed.
 (* ---- SystemClock.Drift ---- *)
 Definition Fval (dn d : Z) : R := rnd (rnd (Rv (dur_seconds d) * Rv (dur_seconds dn)) * IZR E9).
 
+(* the range of the theorems: allowance below 2^63 - 2^13 ns (the last 8192 ns below 2^63 round up
+   to 2^63 and the conversion to int64 then yields MinInt64: see sysclk_drift_top_band) *)
+Definition DRL : Z := 9223372036854767616.        (* 2^63 - 2^13 *)
 Definition drift_range (dn d : Z) : Prop :=
-  (0 < dn <= max_i64)%Z /\ (0 <= d <= max_i64)%Z /\ (dn * d < 2^62 * 1000000000)%Z.
+  (0 < dn <= 9223372036854775808)%Z /\ (0 <= d <= 9223372036854775808)%Z /\ (dn * d < DRL * 1000000000)%Z.
 
-Lemma sysclk_drift_real dn d : drift_range dn d ->
-  sysclk_drift dn d = Zfloor (Fval dn d) /\ near 6 (IZR (dn * d) / IZR E9) (Fval dn d).
+Lemma feq_zero_false' x : fin x = true -> Rv x <> 0 -> feq x fzero = false.
 Proof.
-  intros [Hn [Hd Hq]].
+  intros Fx Hx. unfold feq, fcmp. rewrite Bcompare_correct by (exact Fx || reflexivity).
+  change (Rv fzero) with 0. destruct (Rcompare_spec (Rv x) 0); try reflexivity. contradiction.
+Qed.
+
+(* the float computation of Drift on two finite "seconds" values, no overflow *)
+Lemma drift_core x y : fin x = true -> fin y = true -> Rv y <> 0 ->
+  Rabs (Rv x * Rv y) <= bpow radix2 35 ->
+  Rabs (rnd (Rv x * Rv y) * IZR E9) <= bpow radix2 64 ->
+  (min_i64 <= Ztrunc (rnd (rnd (Rv x * Rv y) * IZR E9)) <= max_i64)%Z ->
+  (if feq y fzero then max_i64 else dur_of_seconds (fmul x y)) = Ztrunc (rnd (rnd (Rv x * Rv y) * IZR E9)).
+Proof.
+  intros Fx Fy Ny B1 B2 Hr. rewrite (feq_zero_false' _ Fy Ny).
+  destruct (fmul_spec x y 35 Fx Fy) as [Fp Rp]; [lia|exact B1|].
+  destruct (f_of_int_spec 1000000000) as [F9 R9]; [lia|]. fold E9 in F9, R9.
+  unfold dur_of_seconds. fold E9.
+  destruct (fmul_spec (fmul x y) (f_of_int E9) 64 Fp F9) as [Fm Rm]; [lia|rewrite R9, Rp; exact B2|].
+  rewrite R9, Rp in Rm. rewrite (f_to_i64_spec _ Fm); rewrite Rm; [reflexivity|exact Hr].
+Qed.
+
+Lemma drift_bounds dn d : drift_range dn d ->
+  fin (dur_seconds d) = true /\ fin (dur_seconds dn) = true /\
+  0 <= Rv (dur_seconds d) /\ 0 < Rv (dur_seconds dn) /\
+  Rv (dur_seconds d) * Rv (dur_seconds dn) <= bpow radix2 35 /\
+  0 <= rnd (Rv (dur_seconds d) * Rv (dur_seconds dn)) * IZR E9 <= bpow radix2 64 /\
+  near 6 (IZR (dn * d) / IZR E9) (Fval dn d) /\ 0 <= Fval dn d < 9223372036854775808.
+Proof.
+  intros [Hn [Hd Hq]]. unfold DRL in Hq.
   destruct (dur_seconds_near d Hd) as [Fd [Nd _]].
   destruct (dur_seconds_near dn) as [Fn [Nn _]]; [lia|].
   pose proof E9_pos_R as P9.
@@ -368,56 +396,59 @@ Proof.
   assert (I9 : 0 < / 1000000000) by (apply Rinv_0_lt_compat; lra).
   assert (Pn : 0 < Rv (dur_seconds dn)).
   { apply (near_half 2) in Nn; [|lra|lia]. lra. }
+  assert (Pd : 0 <= Rv (dur_seconds d)) by (apply (near_nonneg 2 X); assumption).
   assert (EXY : X * Y * IZR E9 = IZR (dn * d) / IZR E9).
   { subst X Y. rewrite mult_IZR. field. lra. }
-  assert (BQ : 0 <= X * Y * IZR E9 < 4611686018427387904).
+  assert (BQ : 0 <= X * Y * IZR E9 < 9223372036854767616).
   { rewrite EXY. split.
     - apply Rmult_le_pos; [apply IZR_le; nia|]. left. apply Rinv_0_lt_compat. exact P9.
     - apply Rmult_lt_reg_r with (IZR E9); [exact P9|]. unfold Rdiv. rewrite Rmult_assoc, Rinv_l by lra.
-      rewrite Rmult_1_r. unfold E9. rewrite <- mult_IZR. apply IZR_lt.
-      change (2^62)%Z with 4611686018427387904%Z in Hq. lia. }
-  assert (BXY : 0 <= X * Y <= 4611686019).
+      rewrite Rmult_1_r. unfold E9. rewrite <- mult_IZR. apply IZR_lt. lia. }
+  assert (BXY : 0 <= X * Y <= 9223372037).
   { split; [apply Rmult_le_pos; lra|]. unfold E9 in BQ. nra. }
-  unfold sysclk_drift. cbv zeta. rewrite (feq_zero_false _ Fn Pn).
-  (* Seconds(d) * drift *)
   assert (Np : near 4 (X * Y) (Rv (dur_seconds d) * Rv (dur_seconds dn))).
   { apply (near_mul 2 2); [exact HX|lra|exact Nd|exact Nn]. }
-  destruct (fmul_spec (dur_seconds d) (dur_seconds dn) 34 Fd Fn) as [Fp Rp]; [lia| |].
-  { pose proof (near_half 4 _ _ (proj1 BXY) ltac:(lia) Np) as Hh. rewrite Rabs_pos_eq by lra.
-    change (bpow radix2 34) with (IZR (2^34)). change (2^34)%Z with 17179869184%Z. lra. }
+  assert (B1 : Rv (dur_seconds d) * Rv (dur_seconds dn) <= bpow radix2 35).
+  { pose proof (near_half 4 _ _ (proj1 BXY) ltac:(lia) Np) as Hh.
+    change (bpow radix2 35) with (IZR (2^35)). change (2^35)%Z with 34359738368%Z. lra. }
   assert (TXY : X * Y = 0 \/ / 500000000000000000000 <= X * Y).
   { destruct (Z.eq_dec d 0) as [->|Nz].
     - left. subst X. unfold Rdiv. rewrite !Rmult_0_l. reflexivity.
     - right. assert (/ 1000000000 <= X) by (apply div_E9_small; lia).
       apply Rle_trans with (/ 1000000000 * / 1000000000); [|apply Rmult_le_compat; lra].
       rewrite <- Rinv_mult. apply Rinv_le_contravar; lra. }
-  assert (Np5 : near 5 (X * Y) (Rv (fmul (dur_seconds d) (dur_seconds dn)))).
-  { rewrite Rp. apply near_rnd; [lia|exact TXY|exact Np]. }
-  (* ... * 1e9 *)
-  destruct (f_of_int_spec 1000000000) as [F9 R9]; [lia|]. fold E9 in F9, R9.
-  set (p := fmul (dur_seconds d) (dur_seconds dn)) in *.
-  assert (Nm : near 5 (X * Y * IZR E9) (Rv p * IZR E9)).
+  assert (Np5 : near 5 (X * Y) (rnd (Rv (dur_seconds d) * Rv (dur_seconds dn)))).
+  { apply near_rnd; [lia|exact TXY|exact Np]. }
+  set (p := rnd (Rv (dur_seconds d) * Rv (dur_seconds dn))) in *.
+  assert (Nm : near 5 (X * Y * IZR E9) (p * IZR E9)).
   { change 5%nat with (5 + 0)%nat. apply near_mul; [lra|lra|exact Np5|apply near_refl]. }
-  unfold dur_of_seconds. fold E9.
-  destruct (fmul_spec p (f_of_int E9) 63 Fp F9) as [Fm Rm]; [lia| |].
-  { rewrite R9. pose proof (near_half 5 _ _ (proj1 BQ) ltac:(lia) Nm) as Hh. rewrite Rabs_pos_eq by lra.
-    change (bpow radix2 63) with (IZR (2^63)). change (2^63)%Z with 9223372036854775808%Z. lra. }
-  rewrite R9 in Rm.
+  assert (B2 : 0 <= p * IZR E9 <= bpow radix2 64).
+  { pose proof (near_half 5 _ _ (proj1 BQ) ltac:(lia) Nm) as Hh.
+    change (bpow radix2 64) with (IZR (2^64)). change (2^64)%Z with 18446744073709551616%Z. lra. }
   assert (TQ : X * Y * IZR E9 = 0 \/ / 500000000000000000000 <= X * Y * IZR E9).
   { destruct TXY as [->|T]; [left; apply Rmult_0_l|right]. unfold E9. nra. }
-  assert (N6 : near 6 (X * Y * IZR E9) (Rv (fmul p (f_of_int E9)))).
-  { rewrite Rm. apply near_rnd; [lia|exact TQ|exact Nm]. }
-  assert (EF : Rv (fmul p (f_of_int E9)) = Fval dn d) by (rewrite Rm, Rp; reflexivity).
-  rewrite EF in N6. rewrite EXY in N6. split; [|exact N6].
-  rewrite <- EXY in N6.
+  assert (N6 : near 6 (X * Y * IZR E9) (Fval dn d)).
+  { unfold Fval. fold p. apply near_rnd; [lia|exact TQ|exact Nm]. }
   pose proof (near6 6 _ _ (proj1 BQ) ltac:(lia) N6) as [L H].
   assert (P0 : 0 <= Fval dn d) by (apply (near_nonneg 6 _ _ (proj1 BQ) N6)).
+  rewrite EXY in N6.
+  refine (conj Fd (conj Fn (conj Pd (conj Pn (conj B1 (conj B2 (conj N6 (conj P0 _)))))))). lra.
+Qed.
+
+Lemma sysclk_drift_real dn d : drift_range dn d ->
+  sysclk_drift dn d = Zfloor (Fval dn d) /\ near 6 (IZR (dn * d) / IZR E9) (Fval dn d).
+Proof.
+  intros Hr. destruct (drift_bounds dn d Hr) as [Fd [Fn [Pd [Pn [B1 [[B2a B2b] [N6 [P0 P1]]]]]]]].
+  split; [|exact N6].
   assert (T : Ztrunc (Fval dn d) = Zfloor (Fval dn d)) by (apply Ztrunc_floor; exact P0).
-  assert (Hrange : (min_i64 <= Ztrunc (Rv (fmul p (f_of_int E9))) <= max_i64)%Z); [rewrite EF, T|rewrite (f_to_i64_spec _ Fm Hrange), EF; exact T].
-  split.
-  - unfold min_i64. assert (0 <= Zfloor (Fval dn d))%Z by (apply Zfloor_lub; exact P0). lia.
-  - unfold max_i64. assert (Zfloor (Fval dn d) < 9223372036854775807)%Z; [|lia].
-    apply lt_IZR. eapply Rle_lt_trans; [apply Zfloor_lb|]. lra.
+  unfold sysclk_drift. cbv zeta. rewrite drift_core; try assumption.
+  - lra.
+  - rewrite Rabs_pos_eq; [exact B1|]. apply Rmult_le_pos; lra.
+  - rewrite Rabs_pos_eq; assumption.
+  - fold (Fval dn d). rewrite T. split.
+    + unfold min_i64. assert (0 <= Zfloor (Fval dn d))%Z by (apply Zfloor_lub; exact P0). lia.
+    + unfold max_i64. assert (Zfloor (Fval dn d) < 9223372036854775808)%Z; [|lia].
+      apply lt_IZR. eapply Rle_lt_trans; [apply Zfloor_lb|]. exact P1.
 Qed.
 
 (* the allowance against the true value q/10^9, q = drift_ns * d, over the reals *)
@@ -459,9 +490,9 @@ Qed.
 (* ---- integer statements ---- *)
 Lemma drift_range_of_bool dn d : in_i64 dn -> in_i64 d -> C18_drift_range dn d = true -> drift_range dn d.
 Proof.
-  unfold in_i64, C18_drift_range, drift_range. intros A B H.
+  unfold in_i64, min_i64, max_i64, C18_drift_range, drift_range, DRL. intros A B H.
   apply andb_true_iff in H. destruct H as [H H3]. apply andb_true_iff in H. destruct H as [H1 H2].
-  apply Z.ltb_lt in H1. apply Z.leb_le in H2. apply Z.ltb_lt in H3. lia.
+  apply Z.ltb_lt in H1. apply Z.leb_le in H2. apply Z.ltb_lt in H3. change (2^62)%Z with 4611686018427387904%Z in H3. lia.
 Qed.
 
 Lemma sysclk_drift_int2 dn d : drift_range dn d ->
@@ -555,42 +586,6 @@ Proof.
   - apply sysclk_drift_mono; [exact H2|lia].
   - apply sysclk_drift_mono; [exact H1|lia].
 Qed.
-
-(* statements in the form used by Props/C18.v (stdlib reals only) *)
-Lemma sysclk_drift_proportional dn d :
-  0 < dn <= max_i64 -> 0 <= d <= max_i64 -> dn * d < 2^62 * 1000000000 ->
-  exists F : Rdefinitions.R,
-    (IZR (sysclk_drift dn d) <= F < IZR (sysclk_drift dn d) + 1)%R /\
-    (Rabs (F - IZR (dn * d) / 1000000000) <= IZR (dn * d) / 1000000000 * / 1125899906842624)%R.
-Proof.
-  intros Hn Hd Hq. assert (Hr : drift_range dn d) by (repeat split; lia).
-  destruct (sysclk_drift_real dn d Hr) as [E N]. exists (Fval dn d). rewrite E. split.
-  - split; [apply Zfloor_lb|apply Zfloor_ub].
-  - assert (HQ : (0 <= IZR (dn * d) / IZR E9)%R).
-    { apply Rmult_le_pos; [apply IZR_le; nia|]. left. apply Rinv_0_lt_compat. apply E9_pos_R. }
-    pose proof (near6 6 _ _ HQ ltac:(lia) N) as [L H]. unfold E9 in *.
-    apply Rabs_le. split; lra.
-Qed.
-
-Lemma sysclk_drift_monotone dn d1 d2 :
-  0 < dn <= max_i64 -> 0 <= d1 <= d2 -> d2 <= max_i64 -> dn * d2 < 2^62 * 1000000000 ->
-  sysclk_drift dn d1 <= sysclk_drift dn d2.
-Proof. intros Hn H1 H2 Hq. apply sysclk_drift_mono; [repeat split; lia|exact H1]. Qed.
-
-Lemma sysclk_drift_empty_interval dn : 0 < dn <= max_i64 -> sysclk_drift dn 0 = 0.
-Proof.
-  intros Hn. apply sysclk_drift_zero; [|reflexivity].
-  unfold drift_range, max_i64 in *. change (2^62) with 4611686018427387904. lia.
-Qed.
-
-Lemma sysclk_drift_1ns dn d :
-  0 < dn <= max_i64 -> 0 <= d <= max_i64 -> dn * d < 2^50 * 1000000000 ->
-  dn * d / 1000000000 - 1 <= sysclk_drift dn d <= dn * d / 1000000000 + 1.
-Proof.
-  intros Hn Hd Hq. apply sysclk_drift_within_1ns; [|exact Hq].
-  change (2^50) with 1125899906842624 in Hq. unfold drift_range. change (2^62) with 4611686018427387904. lia.
-Qed.
-
 
 (* ==== frequency <-> scaled ppm ==== *)
 Open Scope R_scope.
@@ -932,4 +927,235 @@ Proof.
     assert (Rabs (V - Rabs (IZR x)) * IZR D <= Rabs (IZR x) * / 2251799813685248 * IZR D).
     { apply Rmult_le_compat_r; lra. }
     nra.
+Qed.
+
+
+(* ==== Drift: negative arguments, the whole range, the top band ==== *)
+Lemma dur_seconds_opp d : (0 <= d <= 9223372036854775808)%Z ->
+  fin (dur_seconds (- d)) = true /\ Rv (dur_seconds (- d)) = - Rv (dur_seconds d).
+Proof.
+  intros Hd. destruct (dur_seconds_near d Hd) as [_ [_ E]]. rewrite E.
+  unfold dur_seconds.
+  rewrite Z.quot_opp_l, Z.rem_opp_l by lia.
+  rewrite (Z.quot_div_nonneg d 1000000000), (Z.rem_mod_nonneg d 1000000000) by lia.
+  fold E9.
+  pose proof (Z.div_mod d E9 ltac:(unfold E9; lia)) as DM.
+  set (q := (d / E9)%Z) in *. set (r := (d mod E9)%Z) in *.
+  assert (Hr : (0 <= r < 1000000000)%Z) by (subst r; unfold E9; apply Z.mod_pos_bound; lia).
+  assert (Hq : (0 <= q <= 9223372036)%Z) by (unfold E9 in DM; lia).
+  clearbody q r.
+  destruct (f_of_int_spec (- q)) as [Fq Rq]; [lia|].
+  destruct (f_of_int_spec (- r)) as [Fr Rr]; [lia|].
+  destruct (f_of_int_spec 1000000000) as [F9 R9]; [lia|]. fold E9 in F9, R9.
+  pose proof E9_pos_R as P9.
+  assert (Hx : 0 <= IZR r / IZR E9 <= 1).
+  { assert (0 <= IZR r <= 1000000000) by (split; apply IZR_le; lia). unfold E9 in *. split.
+    - apply Rmult_le_pos; [lra|]. left. apply Rinv_0_lt_compat. lra.
+    - apply Rmult_le_reg_r with 1000000000; [lra|]. unfold Rdiv. rewrite Rmult_assoc, Rinv_l by lra. lra. }
+  assert (Ex : IZR (- r) / IZR E9 = - (IZR r / IZR E9)) by (rewrite opp_IZR; unfold Rdiv; ring).
+  destruct (fdiv_spec (f_of_int (- r)) (f_of_int E9) 0) as [Fd Rd].
+  { exact Fr. } { rewrite R9. lra. } { lia. }
+  { rewrite Rr, R9, Ex, Rabs_Ropp. rewrite Rabs_pos_eq by lra. cbn [bpow]. lra. }
+  rewrite Rr, R9, Ex, rnd_opp in Rd.
+  assert (Hf : 0 <= rnd (IZR r / IZR E9) <= 1).
+  { split; [apply rnd_nonneg; lra|]. rewrite <- (rnd_id 1) by (apply (fmt_int 1); lia). apply rnd_le. lra. }
+  assert (Hq' : 0 <= IZR q <= 9223372036) by (split; apply IZR_le; lia).
+  destruct (fadd_spec (f_of_int (- q)) (fdiv (f_of_int (- r)) (f_of_int E9)) 35) as [Fs Rs].
+  { exact Fq. } { exact Fd. } { lia. }
+  { rewrite Rq, Rd, opp_IZR.
+    replace (- IZR q + - rnd (IZR r / IZR E9)) with (- (IZR q + rnd (IZR r / IZR E9))) by ring.
+    rewrite Rabs_Ropp, Rabs_pos_eq by lra.
+    change (bpow radix2 35) with (IZR (2^35)). change (2^35)%Z with 34359738368%Z. lra. }
+  split; [exact Fs|]. rewrite Rs, Rq, Rd, opp_IZR.
+  replace (- IZR q + - rnd (IZR r / IZR E9)) with (- (IZR q + rnd (IZR r / IZR E9))) by ring.
+  apply rnd_opp.
+Qed.
+
+(* Drift is odd in the interval and in the configured drift *)
+Lemma sysclk_drift_signed dn d : drift_range dn d ->
+  sysclk_drift dn (- d) = (- sysclk_drift dn d)%Z /\
+  sysclk_drift (- dn) d = (- sysclk_drift dn d)%Z /\
+  sysclk_drift (- dn) (- d) = sysclk_drift dn d.
+Proof.
+  intros Hr. destruct (drift_bounds dn d Hr) as [Fd [Fn [Pd [Pn [B1 [[B2a B2b] [N6 [P0 P1]]]]]]]].
+  destruct (sysclk_drift_real dn d Hr) as [E _].
+  destruct Hr as [Hn [Hd Hq]].
+  destruct (dur_seconds_opp d Hd) as [Fod Rod].
+  destruct (dur_seconds_opp dn) as [Fon Ron]; [lia|].
+  set (a := Rv (dur_seconds d)) in *. set (b := Rv (dur_seconds dn)) in *.
+  assert (T : Ztrunc (Fval dn d) = Zfloor (Fval dn d)) by (apply Ztrunc_floor; exact P0).
+  assert (Z0 : (0 <= Zfloor (Fval dn d) <= max_i64)%Z).
+  { split; [apply Zfloor_lub; exact P0|]. unfold max_i64.
+    assert (Zfloor (Fval dn d) < 9223372036854775808)%Z; [|lia].
+    apply lt_IZR. eapply Rle_lt_trans; [apply Zfloor_lb|]. exact P1. }
+  assert (Fv : Fval dn d = rnd (rnd (a * b) * IZR E9)) by reflexivity.
+  assert (Eneg : rnd (rnd (- (a * b)) * IZR E9) = - Fval dn d).
+  { rewrite Fv, rnd_opp. replace (- rnd (a * b) * IZR E9) with (- (rnd (a * b) * IZR E9)) by ring. apply rnd_opp. }
+  assert (Aab : Rabs (a * b) <= bpow radix2 35) by (rewrite Rabs_pos_eq; [exact B1|apply Rmult_le_pos; lra]).
+  assert (Ap : Rabs (rnd (a * b) * IZR E9) <= bpow radix2 64) by (rewrite Rabs_pos_eq; assumption).
+  assert (Apn : Rabs (rnd (- (a * b)) * IZR E9) <= bpow radix2 64).
+  { rewrite rnd_opp. replace (- rnd (a * b) * IZR E9) with (- (rnd (a * b) * IZR E9)) by ring. rewrite Rabs_Ropp. exact Ap. }
+  assert (Rneg : (min_i64 <= Ztrunc (- Fval dn d) <= max_i64)%Z).
+  { rewrite Ztrunc_opp, T. unfold min_i64, max_i64 in *. lia. }
+  assert (Aabn : Rabs (- (a * b)) <= bpow radix2 35) by (rewrite Rabs_Ropp; exact Aab).
+  assert (Bn : b <> 0) by lra. assert (Bnn : - b <> 0) by lra.
+  rewrite E. split; [|split].
+  - pose proof (drift_core (dur_seconds (- d)) (dur_seconds dn) Fod Fn) as C. fold b in C. rewrite Rod in C.
+    replace (- a * b) with (- (a * b)) in C by ring. rewrite Eneg in C.
+    unfold sysclk_drift. cbv zeta. rewrite (C Bn Aabn Apn Rneg), Ztrunc_opp, T. reflexivity.
+  - pose proof (drift_core (dur_seconds d) (dur_seconds (- dn)) Fd Fon) as C. fold a in C. rewrite Ron in C.
+    replace (a * - b) with (- (a * b)) in C by ring. rewrite Eneg in C.
+    unfold sysclk_drift. cbv zeta. rewrite (C Bnn Aabn Apn Rneg), Ztrunc_opp, T. reflexivity.
+  - pose proof (drift_core (dur_seconds (- d)) (dur_seconds (- dn)) Fod Fon) as C. rewrite Rod, Ron in C.
+    replace (- a * - b) with (a * b) in C by ring. rewrite <- Fv in C.
+    assert (Rpos : (min_i64 <= Ztrunc (Fval dn d) <= max_i64)%Z) by (rewrite T; unfold min_i64, max_i64 in *; lia).
+    unfold sysclk_drift. cbv zeta. rewrite (C Bnn Aab Ap Rpos), T. reflexivity.
+Qed.
+
+Open Scope Z_scope.
+
+(* closeness for every sign: all non-zero int64 drifts, all int64 intervals, |allowance| < 2^63 - 2^13 ns *)
+Definition drift_close_signed (dn d : Z) : Prop :=
+  let D := sysclk_drift dn d in let q := dn * d in
+  Z.abs (D * 1000000000 - q) * 2^50 <= 1000000000 * 2^50 + Z.abs q /\
+  (0 <= q -> 0 <= D) /\ (q <= 0 -> D <= 0).
+
+Lemma drift_close_signed_all a b : drift_range a b ->
+  drift_close_signed a b /\ drift_close_signed a (- b) /\ drift_close_signed (- a) b /\ drift_close_signed (- a) (- b).
+Proof.
+  intros Hr. destruct (sysclk_drift_signed _ _ Hr) as [S1 [S2 S3]].
+  pose proof (sysclk_drift_int2 _ _ Hr) as [I0 [I1 I2]]. cbv zeta in I1, I2.
+  assert (Hq : 0 <= a * b) by (destruct Hr as [? [? ?]]; nia).
+  unfold drift_close_signed. cbv zeta. rewrite S1, S2, S3.
+  replace (a * - b) with (- (a * b)) by ring. replace (- a * b) with (- (a * b)) by ring.
+  replace (- a * - b) with (a * b) by ring.
+  change (2^50) with 1125899906842624 in *.
+  set (D := sysclk_drift a b) in *. set (q := a * b) in *. clearbody D q.
+  repeat split; lia.
+Qed.
+
+Lemma sysclk_drift_all_signs dn d : in_i64 dn -> in_i64 d -> dn <> 0 ->
+  Z.abs (dn * d) < DRL * 1000000000 -> drift_close_signed dn d.
+Proof.
+  unfold in_i64, min_i64, max_i64. intros A B Nz Hq.
+  destruct (Z_lt_le_dec dn 0) as [Ln|Pn]; destruct (Z_lt_le_dec d 0) as [Ld|Pd].
+  - assert (Hr : drift_range (- dn) (- d)).
+    { unfold drift_range. replace (- dn * - d) with (dn * d) by ring. lia. }
+    destruct (drift_close_signed_all _ _ Hr) as [_ [_ [_ H]]]. rewrite !Z.opp_involutive in H. exact H.
+  - assert (Hr : drift_range (- dn) d).
+    { unfold drift_range. replace (- dn * d) with (- (dn * d)) by ring. lia. }
+    destruct (drift_close_signed_all _ _ Hr) as [_ [_ [H _]]]. rewrite !Z.opp_involutive in H. exact H.
+  - assert (Hr : drift_range dn (- d)).
+    { unfold drift_range. replace (dn * - d) with (- (dn * d)) by ring. lia. }
+    destruct (drift_close_signed_all _ _ Hr) as [_ [H _]]. rewrite !Z.opp_involutive in H. exact H.
+  - assert (Hr : drift_range dn d) by (unfold drift_range; lia).
+    destruct (drift_close_signed_all _ _ Hr) as [H _]. exact H.
+Qed.
+
+(* statements in the form used by Props/C18.v (stdlib reals only) *)
+Lemma sysclk_drift_proportional dn d :
+  0 < dn <= max_i64 -> 0 <= d <= max_i64 -> dn * d < (2^63 - 2^13) * 1000000000 ->
+  exists F : Rdefinitions.R,
+    (IZR (sysclk_drift dn d) <= F < IZR (sysclk_drift dn d) + 1)%R /\
+    (Rabs (F - IZR (dn * d) / 1000000000) <= IZR (dn * d) / 1000000000 * / 1125899906842624)%R.
+Proof.
+  unfold max_i64. change (2^63 - 2^13) with DRL. intros Hn Hd Hq.
+  assert (Hr : drift_range dn d) by (unfold drift_range; lia).
+  destruct (sysclk_drift_real dn d Hr) as [E N]. exists (Fval dn d). rewrite E. split.
+  - split; [apply Zfloor_lb|apply Zfloor_ub].
+  - assert (HQ : (0 <= IZR (dn * d) / IZR E9)%R).
+    { apply Rmult_le_pos; [apply IZR_le; nia|]. left. apply Rinv_0_lt_compat. apply E9_pos_R. }
+    pose proof (near6 6 _ _ HQ ltac:(lia) N) as [L H]. unfold E9 in *.
+    apply Rabs_le. split; lra.
+Qed.
+
+Lemma sysclk_drift_monotone dn d1 d2 :
+  0 < dn <= max_i64 -> 0 <= d1 <= d2 -> d2 <= max_i64 -> dn * d2 < (2^63 - 2^13) * 1000000000 ->
+  sysclk_drift dn d1 <= sysclk_drift dn d2.
+Proof.
+  unfold max_i64. change (2^63 - 2^13) with DRL. intros Hn H1 H2 Hq.
+  apply sysclk_drift_mono; [unfold drift_range; lia|exact H1].
+Qed.
+
+Lemma sysclk_drift_empty_interval dn : 0 < dn <= max_i64 -> sysclk_drift dn 0 = 0.
+Proof.
+  intros Hn. apply sysclk_drift_zero; [|reflexivity].
+  unfold drift_range, DRL, max_i64 in *. lia.
+Qed.
+
+Lemma sysclk_drift_1ns dn d :
+  0 < dn <= max_i64 -> 0 <= d <= max_i64 -> dn * d < 2^50 * 1000000000 ->
+  dn * d / 1000000000 - 1 <= sysclk_drift dn d <= dn * d / 1000000000 + 1.
+Proof.
+  intros Hn Hd Hq. apply sysclk_drift_within_1ns; [|exact Hq].
+  change (2^50) with 1125899906842624 in Hq. unfold drift_range, DRL, max_i64 in *. lia.
+Qed.
+
+
+(* ==== the other direction of the frequency round trip: freq -> scaled ppm -> freq ==== *)
+Open Scope R_scope.
+
+Lemma Ztrunc_err x : Rabs (IZR (Ztrunc x) - x) < 1.
+Proof.
+  destruct (Rle_or_lt 0 x) as [P|N].
+  - rewrite Ztrunc_floor by exact P. pose proof (Zfloor_lb x). pose proof (Zfloor_ub x). apply Rabs_def1; lra.
+  - rewrite Ztrunc_ceil by lra. pose proof (Zceil_ub x). pose proof (Zceil_lb x). apply Rabs_def1; lra.
+Qed.
+
+(* for a frequency within the kernel's range (|f| x 65536e6 <= 2^25, i.e. 512 ppm) the frequency that
+   comes back differs by less than one unit of 2^-16 ppm (plus 2^-26 of a unit for the two roundings) *)
+Lemma ppm_freq_roundtrip f : fin f = true -> Rabs (Rv f * CS) <= 33554432 ->
+  let r := scaled_ppm_from_freq f in
+  fin (freq_from_scaled_ppm r) = true /\ (Z.abs r <= 33554433)%Z /\
+  Rabs (Rv (freq_from_scaled_ppm r) * CS - Rv f * CS) < 1 + / 67108864.
+Proof.
+  intros Ff Hb. cbv zeta. destruct scale_spec as [Fc Rc]. pose proof u_range as Hu.
+  assert (CSpos : 0 < CS) by (unfold CS; lra).
+  set (V := Rv f * CS) in *.
+  destruct (fmul_spec f scale_const 25 Ff Fc) as [Fm Rm]; [lia| |].
+  { rewrite Rc. fold V. change (bpow radix2 25) with (IZR (2^25)). change (2^25)%Z with 33554432%Z. exact Hb. }
+  rewrite Rc in Rm. fold V in Rm. set (b := Rv (fmul f scale_const)) in *.
+  assert (Eb : Rabs (b - V) <= / 268435456).
+  { destruct (Rle_or_lt (bpow radix2 (-1022)) (Rabs V)) as [Big|Tiny].
+    - rewrite Rm. eapply Rle_trans; [apply rnd_rel_abs; right; exact Big|]. unfold u. nra.
+    - assert (Tb : bpow radix2 (-1022) <= / 1073741824).
+      { apply Rle_trans with (bpow radix2 (-30)); [apply bpow_le; lia|].
+        change (bpow radix2 (-30)) with (/ IZR (Zpower_pos 2 30)). change (Zpower_pos 2 30) with 1073741824%Z. lra. }
+      assert (Rabs b <= bpow radix2 (-1022)).
+      { rewrite Rm. apply rnd_abs_le; [|lra]. apply generic_format_bpow.
+        unfold SpecFloat.fexp, FLT_exp, SpecFloat.emin, emax, prec. lia. }
+      replace (b - V) with (b + - V) by ring. eapply Rle_trans; [apply Rabs_triang|]. rewrite Rabs_Ropp. lra. }
+  assert (Bb : Rabs b <= 33554433).
+  { replace b with ((b - V) + V) by ring. eapply Rle_trans; [apply Rabs_triang|]. lra. }
+  pose proof (Ztrunc_err b) as Et.
+  set (r := Ztrunc b) in *.
+  assert (Hr : (Z.abs r <= 33554433)%Z).
+  { assert (Rabs (IZR r) < 33554434).
+    { replace (IZR r) with ((IZR r - b) + b) by ring. eapply Rle_lt_trans; [apply Rabs_triang|]. lra. }
+    rewrite <- abs_IZR in H. assert (Z.abs r < 33554434)%Z; [apply lt_IZR; lra|lia]. }
+  assert (Er : scaled_ppm_from_freq f = r).
+  { unfold scaled_ppm_from_freq. apply f_to_i64_spec; [exact Fm|]. fold b r. unfold min_i64, max_i64. lia. }
+  rewrite Er. destruct (freq_from_ppm_spec r) as [Fg Rg]; [lia|].
+  split; [exact Fg|]. split; [exact Hr|].
+  assert (X2 : Rabs (IZR r) <= 33554433) by (rewrite <- abs_IZR; apply IZR_le; exact Hr).
+  assert (Iv : 0 < / CS) by (apply Rinv_0_lt_compat; exact CSpos).
+  assert (T : IZR r / CS = 0 \/ bpow radix2 (-1022) <= Rabs (IZR r / CS)).
+  { destruct (Z.eq_dec r 0) as [->|N]; [left; unfold Rdiv; apply Rmult_0_l|right].
+    apply tiny_le. unfold Rdiv. rewrite Rabs_mult, (Rabs_pos_eq (/ CS)) by lra.
+    assert (1 <= Rabs (IZR r)) by (rewrite <- abs_IZR; apply IZR_le; lia).
+    apply Rle_trans with (1 * / CS); [|apply Rmult_le_compat_r; lra].
+    rewrite Rmult_1_l. unfold CS. apply Rinv_le_contravar; lra. }
+  pose proof (rnd_rel_abs _ T) as Eg. rewrite <- Rg in Eg.
+  set (g := Rv (freq_from_scaled_ppm r)) in *.
+  assert (Eg' : Rabs (g * CS - IZR r) <= u * Rabs (IZR r)).
+  { replace (g * CS - IZR r) with ((g - IZR r / CS) * CS) by (field; lra).
+    rewrite Rabs_mult, (Rabs_pos_eq CS) by lra.
+    apply Rle_trans with (u * Rabs (IZR r / CS) * CS); [apply Rmult_le_compat_r; lra|].
+    unfold Rdiv. rewrite Rabs_mult, (Rabs_pos_eq (/ CS)) by lra. right. field. lra. }
+  replace (g * CS - V) with ((g * CS - IZR r) + ((IZR r - b) + (b - V))) by ring.
+  eapply Rle_lt_trans; [apply Rabs_triang|].
+  assert (Rabs ((IZR r - b) + (b - V)) < 1 + / 268435456).
+  { eapply Rle_lt_trans; [apply Rabs_triang|]. lra. }
+  assert (u * 33554433 <= / 134217728) by (unfold u; lra).
+  assert (u * Rabs (IZR r) <= u * 33554433) by (apply Rmult_le_compat_l; lra). lra.
 Qed.
